@@ -228,6 +228,32 @@ after the first answer -/
 def plainEvents (user pass : Bytes) (brokerAnswer : Env) : List Env :=
   [.mechStart (some (plainStart user pass)), brokerAnswer, .mechNext (some (plainNext []))]
 
+/-! ### TLS layering (`Dialer.TLS`, `Transport.TLS`)
+
+Both paths wrap the socket before the first protocol byte: `Dialer.dialContext` runs the handshake (`connectTLS`) before
+`NewConnWith`; `connGroup.connect` replaces the dialled socket by `tls.Client(…)` before `protocol.NewConn`, and a
+`tls.Conn` performs its handshake on the first write.  What the broker's SOCKET sees is therefore the ClientHello and
+then, inside the channel, exactly the journal of the plain model. -/
+
+inductive SockItem
+  | hello               -- a TLS handshake record in clear: the only thing that is ever in clear
+  | inner (i : Item)    -- a request of the set-up exchange or of the application, inside the channel
+  deriving DecidableEq, Repr
+
+/-- the Dialer shakes hands inside `dialContext`, i.e. even when the dial then fails before writing anything (bad port);
+the Transport's first write (ApiVersions, always sent) triggers it -/
+def socketView (tls : Bool) (s : State) : List SockItem :=
+  (if tls then [.hello] else []) ++ s.log.map .inner
+
+/-- the dial with TLS configured: when the handshake fails (`hsOk = false`: the peer does not speak TLS, its
+certificate is refused, …) the dial fails before anything else is written and the socket is closed — by `connectTLS`
+itself on the Dialer path (since /repo C18-D32; the socket used to be left open), by the deferred guard of
+`connGroup.connect` on the Transport path, where the handshake runs inside the first write -/
+def startTls (c : Cfg) (tls hsOk : Bool) : State :=
+  if tls && !hsOk then { phase := .failed, log := [], closed := true, result := some .other } else start c
+
+def runTls (c : Cfg) (tls hsOk : Bool) (es : List Env) : Option State := runFrom c (startTls c tls hsOk) es
+
 /-! ### SCRAM adaptor (`sasl/scram/scram.go`) over an abstract conversation
 
 The cryptography lives in the dependency xdg-go/scram; the library's own code is the adaptor: `Start` performs the
